@@ -304,7 +304,7 @@ def observe(case, scratch, full=True):
     o["full"] = bool(full)
     if not full:
         # light observation (most hash seeds): the help text, what was registered and the enumeration orders only
-        o["hidden"], o["api_help"], o["after"], o["fresh"], o["fresh_format_help_sections"] = [], None, None, None, -1
+        o["hidden"], o["api"], o["api_help"], o["after"], o["fresh"], o["fresh_format_help_sections"] = [], None, None, None, None, -1
         return o
     # 4. cmd=False / init=False fields: never parseable
     hidden = []
@@ -339,35 +339,38 @@ def observe(case, scratch, full=True):
                 hidden.append([full, res, full in registered_dests])
     o["hidden"] = hidden
     # 5. print_help() through the API on a fresh parser, then a parse on the same parser, against a fresh parse
-    if done:
-        reset_simple_parsing_state()
-        buf = io.StringIO()
+    #    (also when `--help` could not set the parser up: print_help() is observed on its own)
+    reset_simple_parsing_state()
+    buf = io.StringIO()
+    box2 = {}
 
-        def api():
-            q = build_parser(case, scratch)
-            q.print_help(file=buf)
-            return _leaf_values(q.parse_args(req_argv), case)
+    def api_print():
+        box2["q"] = build_parser(case, scratch)
+        box2["q"].print_help(file=buf)
 
-        ra = outcome_of(api)
-        reset_simple_parsing_state()
-
-        def fresh():
-            q = build_parser(case, scratch)
-            return _leaf_values(q.parse_args(req_argv), case)
-
-        rf = outcome_of(fresh)
-        o["api_help"] = buf.getvalue()
+    rp = outcome_of(api_print)
+    o["api"] = rp[:2] if rp[0] != "ok" else ["ok"]
+    o["api_help"] = buf.getvalue()
+    if rp[0] == "ok":
+        ra = outcome_of(lambda: _leaf_values(box2["q"].parse_args(req_argv), case))
         o["after"] = ra[:2]
-        o["fresh"] = rf[:2]
-        reset_simple_parsing_state()
-
-        def fresh_fmt():
-            return build_parser(case, scratch).format_help()
-
-        rff = outcome_of(fresh_fmt)
-        o["fresh_format_help_sections"] = len(parse_help(rff[1])["sections"]) if rff[0] == "ok" else -1
     else:
-        o["api_help"], o["after"], o["fresh"], o["fresh_format_help_sections"] = None, None, None, -1
+        o["after"] = o["api"]
+    reset_simple_parsing_state()
+
+    def fresh():
+        q = build_parser(case, scratch)
+        return _leaf_values(q.parse_args(req_argv), case)
+
+    rf = outcome_of(fresh)
+    o["fresh"] = rf[:2]
+    reset_simple_parsing_state()
+
+    def fresh_fmt():
+        return build_parser(case, scratch).format_help()
+
+    rff = outcome_of(fresh_fmt)
+    o["fresh_format_help_sections"] = len(parse_help(rff[1])["sections"]) if rff[0] == "ok" else -1
     return o
 
 
